@@ -272,6 +272,15 @@ namespace embedded_pairing::core {
         word_t shift_right(const BigInt<bits>& a, unsigned int amt) {
             unsigned int word_offset = amt / (sizeof(word_t) * 8);
             unsigned int bit_offset = amt % (sizeof(word_t) * 8);
+            if (this == &a && word_offset != 0) {
+                /*
+                 * When shifting in place by a word or more, the loop below
+                 * would read words that it has already overwritten.
+                 */
+                BigInt<bits> original;
+                original.copy(a);
+                return this->shift_right(original, amt);
+            }
             word_t shift_in = 0;
             for (int i = word_length - word_offset - 1; i != -1; i--) {
                 /*
@@ -303,6 +312,15 @@ namespace embedded_pairing::core {
         word_t shift_left(const BigInt<bits>& a, unsigned int amt) {
             unsigned int word_offset = amt / (sizeof(word_t) * 8);
             unsigned int bit_offset = amt % (sizeof(word_t) * 8);
+            if (this == &a && word_offset != 0) {
+                /*
+                 * When shifting in place by a word or more, the loop below
+                 * would read words that it has already overwritten.
+                 */
+                BigInt<bits> original;
+                original.copy(a);
+                return this->shift_left(original, amt);
+            }
             word_t shift_in = 0;
             for (int i = word_offset; i != word_length; i++) {
                 /* See comment above in shift_right. */
